@@ -315,6 +315,19 @@ func runC01(p *Prog, l *Ledger) {
 					if al, ok := strip(v, false).(*ssa.Alloc); ok {
 						if sv := singleStore(al); sv != nil {
 							v = sv
+						} else if refs := al.Referrers(); refs != nil {
+							// a typed atomic cell (new(atomic.Int32)) initialised by its one Store
+							var stored []ssa.Value
+							for _, r := range *refs {
+								if call, ok := r.(*ssa.Call); ok {
+									if c := p.CallOf(call); atomicOpOf(c.Name) == "Store" && len(c.Args) == 2 && c.Args[0] == ssa.Value(al) {
+										stored = append(stored, c.Args[1])
+									}
+								}
+							}
+							if len(stored) == 1 {
+								v = stored[0]
+							}
 						}
 					}
 					pr := &prover{p: p, pa: pa, step: st}
